@@ -105,6 +105,23 @@ def evalOp : List String → Option String
     let (a, ts) ← pArr ts
     let (h, _) ← pNat ts
     pure (withArr a fun a => listToStr (a.stepsUpTo h))
+  -- trait DEFAULT methods (reached through wrappers that do not override them)
+  | "dsteps" :: ts => do
+    -- `ArrivalBound::steps_iter` default = brute-force enumeration of the increase points
+    let (a, ts) ← pArr ts
+    let (h, _) ← pNat ts
+    pure (withArr a fun a => listToStr (a.bruteSteps h))
+  | "dleast" :: ts => do
+    -- `JobCostModel::least_wcet` / `cost_of_jobs` defaults: minimum / sum of the first n job costs
+    let (c, ts) ← pCost ts
+    let (n, _) ← pNat ts
+    pure (withCost c (·.itemsGuard n) fun c =>
+      s!"{(minList? (c.items n)).getD 0} {sumList (c.items n)}")
+  | "dneed" :: ts => do
+    -- `RequestBound::service_needed` default = sum of the job costs
+    let (r, ts) ← pRB ts
+    let (d, _) ← pNat ts
+    pure (withRB r (·.itemsGuard d) fun r => toString (sumList (r.jobCosts d)))
   | "bsteps" :: ts => do
     let (a, ts) ← pArr ts
     let (h, _) ← pNat ts
